@@ -42,7 +42,9 @@ package hedgepolicy
 //@   recvinv msg != nil && msg.result != nil && 0 <= msg.index && msg.index <= e.maxHedges
 //@   premise forall j int, k int :: j >= 1 && k >= 1 ==> reti(exec.CopyForHedge, j) != reti(exec.CopyForCancellable, k)
 //@   loop 0 invariant 0 <= execIdx && execIdx <= e.maxHedges && spawned() == execIdx
+//@   oncall time.NewTimer: assert [C09.spacing.timer_is_the_hedge_delay] lasttimerdur() == lastret(e.delayFunc)
 //@   loop 0 invariant [C09.spacing] execIdx > 0 ==> sel(1) == 0
+//@   loop 0 invariant [C08.hedge.checks_cancel_each_wakeup] ncalls(exec.IsCanceledWithResult) == execIdx && (execIdx > 0 ==> !retb(exec.IsCanceledWithResult, execIdx, 0))
 //@   loop 0 invariant [C16.hedge.onhedge] e.onHedge != nil ==> ncalls(e.onHedge) == max(execIdx - 1, 0)
 //@   loop 0 invariant len(executions) == e.maxHedges + 1
 //@   loop 0 invariant [C09.no_cancel_before_result] forall x iface :: ncalls(x.Cancel) == 0
@@ -54,14 +56,14 @@ package hedgepolicy
 //@   loop 1 invariant forall j int, k int :: 0 <= j && j < k && k <= execIdx ==> executions[j] != executions[k]
 //@   loop 1 invariant forall j int :: 0 <= j && j <= execIdx ==> executions[j] != nil
 //@   loop 1 invariant forall j int :: execIdx < j && j < len(executions) ==> executions[j] == nil
-//@   loop 1 invariant [C09.losers.inv] forall j int :: 0 <= j && j <= rangeindex && j != local("result").index && executions[j] != nil ==> ncalls(executions[j].Cancel) >= 1
+//@   loop 1 invariant [C09.losers.inv] forall j int :: 0 <= j && j <= rangeindex && j != local("result").index && executions[j] != nil ==> ncalls(executions[j].Cancel) >= 1 && lastarg(executions[j].Cancel, 0) == nil
 //@   loop 1 invariant [C09.winner.inv] local("result").index <= execIdx ==> ncalls(executions[local("result").index].Cancel) == 0
 //@   loop 1 decreases len(executions) - rangeindex
 //@   let c := retb(exec.IsCanceledWithResult, ncalls(exec.IsCanceledWithResult), 0)
 //@   ensures [C09.bounded] spawned() >= 1 && spawned() <= e.maxHedges + 1
 //@   ensures [C09.parent_cancel+C08.hedge.parent_cancel] c ==> result == ret(exec.IsCanceledWithResult, ncalls(exec.IsCanceledWithResult), 1)
 //@   ensures [C09.returns_received_result] !c ==> local("result") != nil && result == local("result").result
-//@   ensures [C09.losers_cancelled] !c ==> (forall j int :: 0 <= j && j < len(executions) && j != local("result").index && executions[j] != nil ==> ncalls(executions[j].Cancel) >= 1)
+//@   ensures [C09.losers_cancelled+C08.hedge.cancel_without_result] !c ==> (forall j int :: 0 <= j && j < len(executions) && j != local("result").index && executions[j] != nil ==> ncalls(executions[j].Cancel) >= 1 && lastarg(executions[j].Cancel, 0) == nil)
 //@   ensures [C09.winner_not_cancelled] !c && local("result").index < spawned() ==> ncalls(executions[local("result").index].Cancel) == 0
 //@   ensures [C16.hedge.onhedge_total] e.onHedge != nil ==> ncalls(e.onHedge) == spawned() - 1
 //@   havoc
